@@ -24,3 +24,64 @@ Qed.
 
 Lemma log_no_walk cap max ops s : reach (init_sys cap max [] enf0 ops) s -> Forall not_walk (s_log s).
 Proof. revert s. apply reach_ind_inv; [constructor | intros; eapply log_step_no_walk; eauto]. Qed.
+
+(* ------------------------------------------------------------ every operation commits once *)
+
+Definition tag_is (t : tid) (e : logent) : bool :=
+  match fst (fst e) with T u => Nat.eqb t u | E => false end.
+Definition count_tag (t : tid) (l : list logent) : nat := length (filter (tag_is t) l).
+
+Lemma count_tag_snoc t l e : count_tag t (l ++ [e]) = (count_tag t l + (if tag_is t e then 1 else 0))%nat.
+Proof. unfold count_tag. rewrite filter_app, app_length. cbn [filter]. destruct (tag_is t e); reflexivity. Qed.
+
+Definition post (p : pc) : nat :=
+  match p with
+  | PStart _ | PAddLock _ _ _ | PGetLock _ _ | PLatestLock _ | PListLock _ | PSeenLock _ _ | PRemoveLock _ _
+  | PPurgeLock _ | PVisitLock _ _ _ => 0
+  | _ => 1
+  end.
+
+(** K: a thread whose operation is not a walk has committed exactly [post pc] times. *)
+Definition invK (ops : list op) (s : msys) : Prop :=
+  forall t o p, nth_error ops t = Some o -> o <> OVisit -> nth_error (s_thr s) t = Some p ->
+    count_tag t (s_log s) = post p.
+
+Lemma tag_is_other t u o r : t <> u -> tag_is t (T u, o, r) = false.
+Proof. intros H. unfold tag_is. cbn. now apply Nat.eqb_neq. Qed.
+Lemma tag_is_self t o r : tag_is t (T t, o, r) = true.
+Proof. unfold tag_is. cbn. apply Nat.eqb_refl. Qed.
+Lemma tag_is_E t o r : tag_is t (E, o, r) = false.
+Proof. reflexivity. Qed.
+
+Lemma invK_thr ops s t c s' : invR ops s -> invK ops s -> step_thr s t c = SOk s' -> invK ops s'.
+Proof.
+  intros HR HK H. unfold step_thr in H.
+  destruct (nth_error (s_thr s) t) as [p|] eqn:Ep; [|discriminate].
+  pose proof (HR _ _ Ep) as Hself.
+  destruct p; try discriminate.
+  all: split_step H.
+  all: inv_ok H.
+  all: intros t0 o0 p0 Ho Hv Hn; autorewrite with sys in *.
+  all: apply nth_set_cases in Hn; destruct Hn as [(-> & -> & _)|(Hne & Hn)].
+  (* another thread: its count is untouched by an entry of t *)
+  all: try (rewrite ?count_tag_snoc, ?tag_is_other by congruence; rewrite ?Nat.add_0_r; eapply HK; eauto; fail).
+  (* the stepping thread *)
+  all: specialize (HK _ _ _ Ho Hv Ep); cbn [post] in HK.
+  all: rewrite ?count_tag_snoc, ?tag_is_self, ?HK.
+  all: try reflexivity.
+  all: try (unfold next_add; match goal with |- context [match ?l with [] => _ | _ => _ end] => destruct l end; reflexivity).
+  all: try (unfold purge_next; match goal with |- context [pick ?c ?l] => destruct (pick c l) as [[? ?]|] end; reflexivity).
+  (* walk program counters cannot belong to a thread whose operation is not a walk *)
+  all: unfold rfact in Hself; cbn [committed pending_op] in Hself; destruct Hself as (o' & Hp & Ho'); inv_ok Hp; congruence.
+Qed.
+
+Lemma invK_enf ops s s' : invK ops s -> step_enf s = SOk s' -> invK ops s'.
+Proof.
+  intros HK H. unfold step_enf in H.
+  destruct (s_max s) as [max|] eqn:Emax; [|discriminate].
+  destruct (e_pc (s_enf s)) eqn:Epc; try discriminate.
+  all: split_enf H.
+  all: inv_ok H.
+  all: intros t0 o0 p0 Ho Hv Hn; autorewrite with sys in *.
+  all: rewrite ?count_tag_snoc, ?tag_is_E, ?Nat.add_0_r; eapply HK; eauto.
+Qed.
